@@ -29,6 +29,11 @@ from ..spec.dtable import allowed_set, is_param  # noqa: F401
 
 def run(rep: Report) -> None:
     rep.trusted += TRUSTED_WIRE
+    # the analysis worlds build elements from their slots: the constructors must store
+    # every argument, symbolic or not, in the slot the dynamics read
+    from .. import ctor as _ctor
+
+    _ctor.check(rep, groups=("link", "vsl"))
     cks = wire_results(rep, "base")
     if not require_no_errors(rep, cks):
         return
@@ -67,6 +72,11 @@ def run(rep: Report) -> None:
     require_fresh_lookups(rep)
 
     rep.floor("supports computed", n, 5000)
+    # the dependency structure is stated on the function's arguments: they must be the network's
+    # variables in their natural order also for a link of more than ten segments
+    from . import c04 as _c04
+
+    _c04.run(rep, only_variant="long")
 
 
 def _show(k):
